@@ -1,11 +1,14 @@
 import OpcuaModel.Base.Loop
 import OpcuaModel.Model.Uacp
+import OpcuaModel.Model.UacpMsg
 /-
   Driver for C05.
     recv <rcvBuf> <seg> <seg> …    segments in hex ("-" = empty read)
       → <k> <len>:<fnv32> … <stop>
     where the k delivered frames are given as length and FNV-1a hash and
     <stop> is eof | ueof | toolarge | toosmall | errf <code> <reasonhex> | errdecode | panic
+    sendrecv <sndBuf> <rcvBuf> <typ hex> hello|ack|rhe|err <fields…>
+      → send-refused | sent <n> stop <stop> | sent <n> frame <len>:<fnv32> <decoded message | nodecode>
 -/
 open Opcua Opcua.Uacp
 
@@ -35,7 +38,40 @@ def showStop : Stop → String
   | .errDecode => "errdecode"
   | .panic => "panic"
 
+def showMsg : Msg → String
+  | .hello v r s mm mc url => s!"hello {v} {r} {s} {mm} {mc} {toHex url}"
+  | .ack v r s mm mc => s!"ack {v} {r} {s} {mm} {mc}"
+  | .rhe uri url => s!"rhe {toHex uri} {toHex url}"
+  | .err c reason => s!"err {c} {toHex reason}"
+
+def parseMsg : List String → Option Msg
+  | ["hello", v, r, s, mm, mc, url] => do
+      pure (.hello (← v.toNat?) (← r.toNat?) (← s.toNat?) (← mm.toNat?) (← mc.toNat?) (hexFast url))
+  | ["ack", v, r, s, mm, mc] => do
+      pure (.ack (← v.toNat?) (← r.toNat?) (← s.toNat?) (← mm.toNat?) (← mc.toNat?))
+  | ["rhe", uri, url] => some (.rhe (hexFast uri) (hexFast url))
+  | ["err", c, reason] => do pure (.err (← c.toNat?) (hexFast reason))
+  | _ => none
+
+/-- sendrecv <sndBuf> <rcvBuf> <typ hex> <msg…>: `Send` on one Conn, one `Receive` on the peer,
+    then the handshake code's decoding of the delivered frame -/
+def sendRecv (sndBuf rcvBuf : Nat) (typ : Bytes) (m : Msg) : String :=
+  match send sndBuf typ m.body with
+  | none => "send-refused"
+  | some f =>
+    match receive rcvBuf [f] with
+    | .stop o => s!"sent {f.length} stop {showStop o}"
+    | .frame g _ =>
+      let dec := match decodeFrame g with
+        | some m' => showMsg m'
+        | none => "nodecode"
+      s!"sent {f.length} frame {g.length}:{fnv32 g} {dec}"
+
 def handle : List String → String
+  | "sendrecv" :: sb :: rb :: typ :: msg =>
+    match sb.toNat?, rb.toNat?, parseMsg msg with
+    | some s, some r, some m => sendRecv s r (hexFast typ) m
+    | _, _, _ => "bad-op"
   | "recv" :: rb :: segs =>
     match rb.toNat? with
     | some rcvBuf =>
